@@ -145,7 +145,7 @@ def run(args, rep):
     if args.tier == 'quick':
         progs = progs[:6484] + progs[6484 + 4156:][:1500]
     optsets = [('TT-taint', {'rl': True, 'rg': True, 'taint': True}), ('TF-taint', {'rl': True, 'rg': False, 'taint': True})]
-    skipped = _rename.observe_and_judge(rep, progs, optsets, ['c09:'], 'C09', rng, variant_share=0.0)
+    skipped = _rename.observe_and_judge(rep, progs, optsets, ['c09:'], 'C09', rng, variant_share=0.0, store_share=0.04)
     # (a') the trigger is one of the program's own names: x is spelled eval / exec / locals / globals / vars, so whether the module refers to the builtin
     # depends on where x is bound and read (PyScope.tla decides); every function and the module also have a renamable name of their own.
     # Programs: the enumerated ones and the deep chains module > s2 > s3 > s4 of every kind (class in class in function, ...)
@@ -156,6 +156,10 @@ def run(args, rep):
     for pid, p in own:
         tn = trig_names[rng.randrange(len(trig_names))]
         jobs2.append({'id': '%s|TT|own-%s' % (pid, tn), 'p': p, 'variant': 0, 'opts': {'rl': True, 'rg': True}, 'names': {'x': tn}, 'witness': True})
+        if len(p['kind']) > 1 and rng.random() < 0.4:
+            # ... with the nested scopes defined inside an except handler / match case / with / finally / loop else / keyword value: the freeze has to reach them
+            pl = _rename.PLACEMENTS[rng.randrange(len(_rename.PLACEMENTS))]
+            jobs2.append({'id': '%s|TT|own-%s-p-%s' % (pid, tn, pl), 'p': p, 'variant': 0, 'opts': {'rl': True, 'rg': True}, 'names': {'x': tn}, 'witness': True, 'place': pl})
         if rng.random() < 0.3:
             # ... with a value-less annotation of the name at module level (`eval: int` binds nothing: a read still reaches the builtin)
             jobs2.append({'id': '%s|TT|own-%s-d-ann' % (pid, tn), 'p': p, 'variant': 0, 'opts': {'rl': True, 'rg': True}, 'names': {'x': tn}, 'witness': True, 'deco': ['ann']})
